@@ -394,6 +394,12 @@ def run(ctx):
 
     _K.accumulator_reset(ctx, rule="R11.11")  # mode-summation kernels: phase reset per mode, every point and mode visited (shared with C15)
     _K.full_extent(ctx, rule="R11.11")
+    _K.zero_init(ctx, rule="R11.11")
+    from . import C15_bounds
+
+    C15_bounds.run(ctx, rule="R11.11", files=("field/summator.pyx",), floor=20)
+    _K.mode_terms(ctx, rule="R11.11")
+    _K.double_precision(ctx, rule="R11.11")
     from ..small import none_default_rule
 
     none_default_rule(ctx, "R11.8", ["field/", "random/"], 20)
